@@ -443,7 +443,7 @@ theorem basisT_val (t : Int → α) (nknots order : Nat) (xs : List α) (j g : N
   simp only [bsplineG_eq_Bind]
   simp [List.getD_eq_getElem?_getD, hg]
 
-theorem specSumRow_eq_sum (inner : α → Int → α) (s : Nat) (p : α) (fs : List α) (pos : Int) :
+theorem specSumRow_eq_rangeSum (inner : α → Int → α) (s : Nat) (p : α) (fs : List α) (pos : Int) :
     specSumRow inner s p fs pos
       = ∑ k ∈ Finset.range fs.length, inner (p * fs.getD k 0) (pos + (k : Int) * s) := by
   induction fs generalizing pos with
@@ -465,12 +465,12 @@ theorem specSum_snoc (coef : Int → α) (rows : List (Nat × List α)) (s : Nat
       = ∑ j ∈ Finset.range fs.length, fs.getD j 0 * specSum coef rows p (pos + (j : Int) * s) := by
   induction rows generalizing p pos with
   | nil =>
-    simp only [List.nil_append, specSum, specSumRow_eq_sum, L.mul_eq]
+    simp only [List.nil_append, specSum, specSumRow_eq_rangeSum, L.mul_eq]
     apply Finset.sum_congr rfl
     intro j _; ring
   | cons r rows ih =>
     obtain ⟨s', fs'⟩ := r
-    simp only [List.cons_append, specSum, specSumRow_eq_sum, ih]
+    simp only [List.cons_append, specSum, specSumRow_eq_rangeSum, ih]
     rw [Finset.sum_comm]
     apply Finset.sum_congr rfl
     intro j _
